@@ -400,6 +400,22 @@ def _main(mod, pid, tier, seed, args, t0):
                 for line, exp in ls:
                     batch_lines.append(line)
                     batch_meta.append((case, exp, res))
+            # second pass: a sample of the same cases again, after everything else of the suite has run in this process — a result
+            # is a function of the input, not of what the library was asked before (caches, class-level state, mutated defaults)
+            again = [c for c in cases if not (isinstance(c, dict) and c.get("big"))]
+            rng2 = random.Random(f"{seed}/{pid}/{suite.name}/again")
+            rng2.shuffle(again)
+            for case in again[: (getattr(suite, "repeat", 25) if tier == "quick" else 4 * getattr(suite, "repeat", 25))]:
+                if n_timeouts >= 4:
+                    break
+                res = run_case(suite, case)
+                if isinstance(res, dict) and res.get("exc") == "Timeout":
+                    n_timeouts += 1
+                stats["evaluations"] += 1
+                sstat["second_pass"] = sstat.get("second_pass", 0) + 1
+                for key, msg in suite.oracle(case, res):
+                    sstat["findings"] += 1
+                    F.append({"suite": suite.name, "key": key, "msg": "(second evaluation of this case in the same process) " + msg, "case": case, "impl": res})
             if batch_lines and driver_ok:
                 outs = run_driver(batch_lines)
                 sstat["lines"] += len(batch_lines)
